@@ -83,7 +83,8 @@ def _ops(draw):
             ops.append([kind, draw(st.integers(2, 7))])
         else:
             ops.append([kind])
-    return dict(part="wrapper", rhs=rhs, own_jac=own, ops=ops)
+    # the request times are handed over in ONE 0-d array that the caller updates in place (tbuf[...] = t), or as fresh scalars
+    return dict(part="wrapper", rhs=rhs, own_jac=own, ops=ops, time_buffer=draw(st.sampled_from([False, False, True])))
 
 
 def parts(tier):
@@ -195,6 +196,11 @@ def _check_fd(case):
     else:
         teff = 4 * 4 * np.finfo(np.float64).eps if tol is None else tol
         Jmax = float(np.max(np.abs(Jtrue))) if Jtrue.size else 0.0
+        if not case.get("int_point") and not case.get("view"):
+            # the size of the derivatives the differences are formed from, not of their sum at this very point: where the
+            # terms cancel (A B + C = 0 at x = 0) the Jacobian vanishes but the truncation error does not
+            ninf_ = lambda Mx: float(np.max(np.sum(np.abs(Mx), axis=1))) if np.size(Mx) else 0.0
+            Jmax = max(Jmax, ninf_(A) * ninf_(B) * float(np.max(w)) + ninf_(C))
         allowed = 100 * (teff + teff * Jmax) + 1e-8 * (Jmax + fmag / (1 + float(np.max(np.abs(x)))))
         if not case.get("adaptive", True):
             allowed = 1e-5 * (Jmax + fmag / (1 + float(np.max(np.abs(x)))) + 1e-3)      # no tolerance control in this mode: gross errors only
@@ -242,6 +248,7 @@ def _check_wrapper(case):
         def target(t, y, **kw):
             return f(t, y)
     w = DiffRHS(target)
+    tbuf = np.array(0.0)
     # a second wrapper around the SAME callable (OdeSystem copies the DiffRHS it is given; a user may wrap one function twice):
     # what it is asked must not leak into the answers of the first
     w2 = DiffRHS(target) if any(o[0] == "other_jac" for o in case["ops"]) else None
@@ -262,7 +269,11 @@ def _check_wrapper(case):
                 y = np.asarray(op[2], dtype=np.float64).reshape(shape)
                 times.add(op[1])
                 nlog = len(log)
-                J = w.jac(t, y)
+                if case.get("time_buffer"):
+                    tbuf[...] = op[1]
+                    J = w.jac(tbuf, y)
+                else:
+                    J = w.jac(t, y)
                 njev += 1
                 if model_user is not None:
                     want_k = 9 if model_user == "own" else model_user
@@ -337,7 +348,7 @@ def _check_wrapper(case):
         if viols:
             break
     nontrivial = len(times) >= 2 and hooks >= 1
-    labels = ["wrapper:own_jac" if case["own_jac"] else "wrapper:plain_rhs", "wrapper:shape{}d".format(len(shape))]
+    labels = ["wrapper:own_jac" if case["own_jac"] else "wrapper:plain_rhs", "wrapper:shape{}d".format(len(shape))] + (["wrapper:times_in_one_array_updated_in_place"] if case.get("time_buffer") else [])
     labels += ["op:" + k for k in sorted(set(o[0] for o in case["ops"]))]
     return viols, dict(nontrivial=nontrivial, labels=labels)
 
